@@ -419,7 +419,7 @@ func writeEvidence(id string, ev *evidenceAcc, tier string, seed int64, wall flo
 		"assumptions": append([]string{"amd64 sizes and alignment", "go/ssa (x/tools v0.29.0) as front end", "intrinsic models listed in coverage.intrinsics_hit",
 			"structure (dtype, shape, layout, mode) instantiated per instance; data symbolic"}, pd.Assume...),
 	}
-	dir := filepath.Join(verifDir(), "evidence")
+	dir := filepath.Join(outDir(), "evidence")
 	os.MkdirAll(dir, 0o755)
 	b, _ := json.MarshalIndent(out, "", " ")
 	os.WriteFile(filepath.Join(dir, id+".json"), b, 0o644)
@@ -467,7 +467,7 @@ func replayCandidates(prop string, cands []*candidate, kf *KFFile) ([]*candidate
 	if len(cands) == 0 {
 		return nil, nil
 	}
-	dir := filepath.Join(verifDir(), "replays", prop)
+	dir := filepath.Join(outDir(), "replays", prop)
 	os.MkdirAll(dir, 0o755)
 	old, _ := filepath.Glob(filepath.Join(dir, "*.json"))
 	for _, f := range old {
@@ -843,4 +843,12 @@ func cmdReplay(args []string) {
 		os.Exit(1)
 	}
 	fmt.Println("not reproduced")
+}
+
+// outDir is where evidence and replay files go: /verif, or $VERIF_OUT for regression runs that must not overwrite them.
+func outDir() string {
+	if d := os.Getenv("VERIF_OUT"); d != "" {
+		return d
+	}
+	return verifDir()
 }
